@@ -164,6 +164,7 @@ impl RawGen {
             terminal,
             fs_read_faults: vec![],
             term_faults: vec![],
+            unreadable: vec![],
         }
     }
 
